@@ -53,7 +53,7 @@ static constexpr bool IS_BOOL = (CODEC == 0), IS_STR = (CODEC == 11), IS_HANDLE 
 
 template <template <unsigned> class F, unsigned... Is>
 static inline void dispatch_seq(unsigned sel, std::integer_sequence<unsigned, Is...>) { ((sel == Is ? (F<Is>::run(), 0) : 0), ...); }
-static uint8_t g_raw[96];  // symbolic bytes (plain global array: reads at constant offsets fold)
+static uint8_t g_raw[136];  // symbolic bytes (plain global array: reads at constant offsets fold)
 // lengths LO..HI, one literal-constant case per length (selector dispatch), all in one solver query
 #define LEN_HARNESS(name, LO, HI)                                                                                   \
   static void body_##name(unsigned len);                                                                            \
